@@ -242,6 +242,10 @@ func (e *Engine) evalPhis(st *State, fr *Frame, b *ssa.BasicBlock, pred *ssa.Bas
 		fr.regs[phi] = v
 		if phi.Comment != "" {
 			fr.names[phi.Comment] = NameBinding{V: v}
+			if li := e.loopsOf(fr.fn)[b]; li != nil {
+				// nested range loops all call their index `rangeindex`: <name>_<loop ordinal> is unambiguous
+				fr.names[fmt.Sprintf("%s_%d", phi.Comment, li.ord)] = NameBinding{V: v}
+			}
 		}
 	}
 }
@@ -287,6 +291,7 @@ func (e *Engine) loopEntry(st *State, fr *Frame, li *loopInfo, pred *ssa.BasicBl
 		fr.regs[phi] = nv
 		if phi.Comment != "" {
 			fr.names[phi.Comment] = NameBinding{V: nv}
+			fr.names[fmt.Sprintf("%s_%d", phi.Comment, li.ord)] = NameBinding{V: nv}
 		}
 	}
 	e.havocLoopWrites(st, fr, li)
@@ -593,6 +598,11 @@ func (e *Engine) scanWrites(fr *Frame, instrs []ssa.Instruction, w *writeSet, en
 		case *ssa.Go, *ssa.Defer:
 			w.ghost = true
 			w.anyCall = true
+			if g, ok := x.(*ssa.Go); ok {
+				if callee, ok := g.Common().Value.(*ssa.Function); ok {
+					w.syms = append(w.syms, "go_"+shortFuncName(callee))
+				}
+			}
 		case ssa.CallInstruction:
 			cc := x.Common()
 			w.ghost = true
@@ -623,6 +633,22 @@ func (e *Engine) scanWrites(fr *Frame, instrs []ssa.Instruction, w *writeSet, en
 				}
 			case *ssa.Function:
 				c := e.contractFor(callee)
+				if e.rootC != nil {
+					for _, l := range e.rootC.Extra["logcalls"] {
+						for _, n := range strings.Fields(l) {
+							if n == shortFuncName(callee) {
+								w.syms = append(w.syms, n)
+							}
+						}
+					}
+				}
+				if _, isGo := x.(*ssa.Go); isGo {
+					w.syms = append(w.syms, "go_"+shortFuncName(callee))
+					continue
+				}
+				if c != nil && e.inlineCall(callee) {
+					c = nil
+				}
 				if c != nil && !c.Inline {
 					e.scanContractWrites(callee, c, cc, w, env)
 					// pointer arguments that designate cells are in/out
@@ -795,6 +821,15 @@ func (e *Engine) havocLog(st *State, name string) {
 func (e *Engine) logFromSig(st *State, name string) *CallLog {
 	pv, ok := e.params[name]
 	if !ok {
+		// a statically called (or spawned) function recorded through `opt logcalls` / a go statement
+		if callee := e.findCalleeByName(strings.TrimPrefix(name, "go_")); callee != nil {
+			cenv := e.calleeEnv(callee, e.rootEnv)
+			var args []Val
+			for _, p := range bodyOf(callee).Params {
+				args = append(args, e.zeroVal(resolve(p.Type(), cenv)))
+			}
+			return e.getLog(st, name, args)
+		}
 		return nil
 	}
 	sig, ok := pv.T.Underlying().(*types.Signature)
@@ -1586,4 +1621,28 @@ func (e *Engine) allocNamed(fn *ssa.Function, name string) *ssa.Alloc {
 		allocNameCache[fn] = m
 	}
 	return m[name]
+}
+
+// findCalleeByName: a function called (or spawned) statically from the root function, by source name.
+func (e *Engine) findCalleeByName(name string) *ssa.Function {
+	var found *ssa.Function
+	var walk func(fn *ssa.Function)
+	walk = func(fn *ssa.Function) {
+		for _, b := range fn.Blocks {
+			for _, in := range b.Instrs {
+				if ci, ok := in.(ssa.CallInstruction); ok {
+					if callee, ok := ci.Common().Value.(*ssa.Function); ok && shortFuncName(callee) == name {
+						found = callee
+					}
+				}
+			}
+		}
+		for _, af := range fn.AnonFuncs {
+			walk(af)
+		}
+	}
+	if e.root != nil {
+		walk(bodyOf(e.root))
+	}
+	return found
 }
